@@ -243,3 +243,35 @@ def reviewedProcessAppInfo : List String := [
 
 /-- **C05 / C03 (tie: the application table is maintained as the model says).** -/
 theorem C05_appinfo_source_tied : Gen.Skeleton.processAppInfo = reviewedProcessAppInfo := rfl
+
+/-! ## What is advertised at connect comes from the agent's description alone - at every connect -/
+
+/-- a connect attempt starts from the application's description as it is (which never changes: `C04_identity_stable`) -/
+theorem C05_attempt_carries_description (s : PState) (h : String) (app : AppM) (ha : getApp s h = some app) :
+    ∀ r ∈ (considerConnect s h).2, r.payload = Payload.pre app.cfg ∧ r.app = h := by
+  intro r hr
+  unfold considerConnect at hr
+  rw [ha] at hr
+  simp only [] at hr
+  split at hr
+  · simp only [List.mem_singleton] at hr
+    subst hr
+    exact ⟨rfl, rfl⟩
+  · simp at hr
+
+/-- … and the connect request of that attempt carries the very same description: the limits it advertises
+(`C05_advertised`: the daemon's maxima lowered to the agent's span, log and custom settings) therefore depend on the agent's
+settings only — not on the limits or report periods negotiated for an earlier run of the application. -/
+theorem C05_connect_carries_preconnect_description (s : PState) (r : Req) (o : Outcome) (host : String) :
+    ∀ c ∈ (preconnectReply s r o host).2, ∃ cfg, r.payload = Payload.pre cfg ∧ c.payload = Payload.con cfg host ∧ c.cat = Cat.connect := by
+  intro c hc
+  unfold preconnectReply at hc
+  simp only [] at hc
+  split at hc
+  · split at hc
+    · next cfg hp =>
+      simp only [List.mem_singleton] at hc
+      subst hc
+      exact ⟨cfg, hp, rfl, rfl⟩
+    · simp at hc
+  · simp at hc
